@@ -189,6 +189,8 @@ func main() {
 		modeFallback(*n)
 	case "fault":
 		modeFault(*long)
+	case "life":
+		modeLife(*long)
 	default:
 		panic("unknown mode " + *mode)
 	}
